@@ -63,6 +63,7 @@ class Runner:
         self.a = Aspire(log_likelihood=self.tgt.log_likelihood, log_prior=self.tgt.log_prior, dims=1, parameters=["x_0"], flow=flow,
                         xp=self.NS["numpy"], flow_backend="fake")
         self.errors = []
+        self.last_fit_overwrote = False
 
     def do(self, o):
         from aspire import Aspire
@@ -73,6 +74,8 @@ class Runner:
                 self.nfit += 1
                 tag = f"{o[1]}.{self.nfit}"          # every fit produces a new flow, even on the same data set
                 data = np.random.default_rng(1000 * o[1] + self.nfit).normal(o[1], 0.5 + 0.1 * self.nfit, size=(30, 1))
+                # did this fit have a file to write to (explicit path or active defaults), and was it told to overwrite its flow?
+                self.last_fit_overwrote = bool(o[3]) and (bool(o[2]) or getattr(a, "_checkpoint_defaults", None) is not None)
                 a.fit(Samples(data, xp=self.NS["numpy"]), checkpoint_path=self.path if o[2] else None, overwrite=o[3], tag=tag)
                 self.flows[tag] = (a.flow.mu.copy(), a.flow.sigma.copy())
             elif o[0] == "Sample":
@@ -96,6 +99,7 @@ class Runner:
                 new = Aspire.resume_from_file(self.path, log_likelihood=self.tgt.log_likelihood, log_prior=self.tgt.log_prior)
                 self.a = new
                 self.cms = []
+                self.last_fit_overwrote = False
         except Exception as e:
             self.errors.append((o, f"{type(e).__name__}: {str(e)[:100]}"))
 
@@ -178,7 +182,7 @@ def run(ctx):
                     bad_cfg = (ob["cfg"][1] if ob["cfg"] else None) != cs
                 prefix = [op_coq(q) for q in ops[: len(obs_list)]]
                 if bad_flow and not was_bad[0]:
-                    ctx.violation("stale-flow:" + classify(ops[: len(obs_list)]),
+                    ctx.violation("stale-flow:" + classify(ops[: len(obs_list)], "stale-flow", r.last_fit_overwrote),
                                   f"after {prefix[-1]}: file flow is {ob['flow']} but the stored checkpoint's particles were weighted under flow {ob['ckpt'][1]}",
                                   {"ops": prefix, "observed": str(ob)})
                 if bad_cfg and not was_bad[1]:
@@ -242,10 +246,15 @@ Definition chk ops es := go init0 ops es.
     ctx.traces = len(rows)
 
 
-def classify(ops):
+def classify(ops, kind="", fit_overwrote=False):
     """Name the operation that introduced the inconsistency (the key used in known_findings.json)."""
     last = ops[-1]
     resumed = any(o[0] == "Resume" for o in ops[:-1])
+    # the recorded findings all come from the no-overwrite policy (or from a fit replacing the flow under a stored checkpoint);
+    # a checkpoint written by an SMC run whose proposal is NOT the file's flow although the latest fit, with no resume since, was
+    # told to overwrite the file's flow is a different history and gets its own key
+    if kind == "stale-flow" and last[0] == "Sample" and last[1] != "Importance" and fit_overwrote:
+        return "smc-sampling-although-the-latest-fit-overwrote-the-file-flow"
     if last[0] == "Sample" and last[1] == "Importance":
         return "importance-sampling-to-a-file-with-an-smc-checkpoint"
     if last[0] == "Fit":
